@@ -135,7 +135,7 @@ CLAIMS = {
 # additions of the third working round (appended to the claim text / technique of each property)
 ADDENDA = {
     "C01": (" Third round: the graph passes are evaluated on block graphs built from the repository's own block classes (interpreted): NormalizeBlocks and flattenBlocks preserve the bounded executions of branch/loop/empty-block shaped graphs (flat code read by a small reference machine); compileSubroutine puts the deferred code before every retsub, appends the implicit return and closes the call graph; every control construct, built through its own constructor/builder methods and lowered by its own __teal__, has exactly the executions of an independent reference CFG; isTerminal over all terminator positions. Seventh round: the field tables (R04.2: name, type and minimum version of every field row against the AVM reference) are part of the claim.", "; trace equivalence of interpreted graph passes / construct lowerings against reference machines"),
-    "C02": (" Third round: findRecursionPoints on all 3-node call graphs and sampled 4/5-node graphs; slot classification over routine-subset families; frame-pointer routines with body-allocated locals (deferred frame_bury 0); probe handler for recursive ABI subroutines. Sixth round: the context in which the scratch convention creates an ABI output value; the spill worlds model a routine's statements as ops.", "; exhaustive small-graph enumeration"),
+    "C02": (" Third round: findRecursionPoints on all 3-node call graphs and sampled 4/5-node graphs; slot classification over routine-subset families; frame-pointer routines with body-allocated locals (deferred frame_bury 0); probe handler for recursive ABI subroutines. Sixth round: the context in which the scratch convention creates an ABI output value; the spill worlds model a routine's statements as ops. Eighth round: find_recursive_path terminates and returns a genuine call cycle on every 3-node call graph and sampled 4/5-node graphs (R02.4p).", "; exhaustive small-graph enumeration"),
     "C03": (" Third round: both calling conventions (R02.2) and the allocator (R10.1) are part of the option-independence argument; slot classification families; dependency scan with loads before the pair. Seventh round: the ScratchSlot constructor sets isReservedSlot for every requested id, 0 included (R10.2).", ""),
     "C04": (" Third round: slot-count limit with requested slots, flattenBlocks label discipline decided on flattened graphs, isTerminal, one-line comment ops (shared rules).", ""),
     "C05": (" Third round: ScratchVar and FrameVar (the two AbstractVar implementations) are interpreted from their class definitions and must refuse exactly the values the reference relation refuses; skip-set and prologue rules shared in. Fourth round: If chains built through the repository's own Then/ElseIf/Else methods are typed like the positional form (found and fixed a defect); asset/app/holding accessors agree with their field tables. Fifth round: every control construct and every operator factory is built from operands of each type and what is accepted (construction and lowering together) is compared with the discipline - found and fixed Eq/Neq over operands that leave nothing.", "; sibling cross-check of interpreted classes"),
